@@ -349,6 +349,13 @@ func (s *Session) enterBlock(fr *Frame, b *ssa.BasicBlock) *State {
 		f := s.evalBoolClause(fr, inv, st, b)
 		s.assume(Imp(st.Reach, f))
 	}
+	if fr.contract != nil && fr.top {
+		for _, as := range fr.contract.LoopAssume[ord] {
+			f := s.evalBoolClause(fr, as, st, b)
+			s.assume(Imp(st.Reach, f))
+			s.note("ASSUMED (not proved) at loop %d of %s: %s", ord, fr.fn.String(), as.Src)
+		}
+	}
 	return st
 }
 
@@ -1105,6 +1112,7 @@ func (s *Session) convert(fr *Frame, st *State, v Val, from, to types.Type) Val 
 			// round trip: bytes2str(str2bytes(s),0,len(s)) == s
 			if typeKey(sl.Elem()) == "byte" || typeKey(sl.Elem()) == "uint8" {
 				s.assume(Eq(s.uf("bytes2str", SInt, content, I(0), s.strlen(v.T0())), v.T0()))
+				s.assume(Eq(Eq(s.strlen(v.T0()), I(0)), Eq(v.T0(), I(0))))
 			}
 			return Val{Typ: to, L: []T{ptr, I(0), s.strlen(v.T0())}}
 		}
